@@ -31,7 +31,7 @@ def one(d):
     w = tempfile.mkdtemp(prefix='refwt-')
     subprocess.run(f'git -C /repo worktree add -f --detach {w} HEAD -q', shell=True, check=True)
     try:
-        r = subprocess.run(f'git -C {w} apply {d}/patch.diff', shell=True, capture_output=True, text=True)
+        r = subprocess.run(f'git -C {w} apply {d}/patch.diff || git -C {w} apply --3way {d}/patch.diff', shell=True, capture_output=True, text=True)
         if r.returncode != 0:
             return d.name, {'applies': False, 'err': r.stderr[-200:]}
         ev = tempfile.mkdtemp(prefix='ref-ev-')
